@@ -115,9 +115,40 @@ def check_window(window, depth, max_preempt, timeout_s, result, regime):
         result.inconclusive.append("window={0} regime={1} reason=universe bound exceeded (queue capacity / worker slots / counter width)".format(window.name, regime))
     elif res != "unsat":
         result.inconclusive.append("window={0} regime={1} reason=bound assertion {2}".format(window.name, regime, res))
-    for prop in window.props:
+    def bad_terms(prop):
         bad = []
+        if prop.kind == "nodeadlock":
+            for k, S in enumerate(un.states[:-1]):
+                bad.append(lift(and_(not_(un.any_enabled[k]), prop.when(S))))
+            return bad
         for S in un.states:
+            p = prop.pred(S)
+            if prop.kind == "final":
+                bad.append(lift(and_(prop.when(S), not_(p))))
+            else:
+                bad.append(lift(not_(p)))
+        return bad
+
+    # one query for "some clause is violated": unsat discharges all of them at once
+    everything = []
+    for prop in window.props:
+        everything.extend(bad_terms(prop))
+    res, model, dt = solve(cons, [z3.Or(*everything)], timeout_s)
+    result.queries += 1
+    result.solver_s += dt
+    if res == "unsat":
+        for prop in window.props:
+            result.discharged.append((window.name, prop.name, regime))
+        todo = []
+    else:
+        todo = list(window.props)
+    for prop in todo:
+        bad = []
+        if prop.kind == "nodeadlock":
+            # a state in which no thread can move although `when` (work is left) holds
+            for k, S in enumerate(un.states[:-1]):
+                bad.append(lift(and_(not_(un.any_enabled[k]), prop.when(S))))
+        for S in un.states if prop.kind != "nodeadlock" else []:
             p = prop.pred(S)
             if prop.kind == "final":
                 w = prop.when(S)
@@ -137,7 +168,12 @@ def check_window(window, depth, max_preempt, timeout_s, result, regime):
             result.inconclusive.append("window={0} prop={1} regime={2} reason=z3 {3} after {4:.0f}s".format(window.name, prop.name, regime, res, dt))
     if window.twin is not None:
         S = un.states[-1]
-        res, model, dt = solve(cons, [lift(window.twin(S))], timeout_s)
+        if window.twin == "progress":
+            # vacuity guard for shallow windows: a run in which something moves at every step
+            goal = [z3.And(*[sv != core.Unroller.STUTTER for sv in un.sched[: min(depth, 12)]])]
+        else:
+            goal = [lift(window.twin(S))]
+        res, model, dt = solve(cons, goal, timeout_s)
         result.queries += 1
         result.solver_s += dt
         if res == "sat":
@@ -168,7 +204,12 @@ def trim_schedule(system, state0, schedule):
     return states, steps
 
 
-def violated_concretely(prop, states):
+def violated_concretely(prop, states, system=None):
+    if prop.kind == "nodeadlock":
+        for idx, S in enumerate(states):
+            if prop.when(S) and not any(system.enabled_concrete(S, t) for t in range(len(system.threads))):
+                return idx
+        return None
     for idx, S in enumerate(states):
         p = prop.pred(S)
         if prop.kind == "final":
